@@ -15,9 +15,9 @@ def battery():
     def layer():
         from harness import dbutil
         L = dbutil.fresh_layer()
-        names = ["orders", "customers", "items", "regions", "returns", "stores"]
+        names = ["orders", "stores", "items", "regions", "returns", "customers"]     # registration order makes the adjacency order differ at the two ends of the diamond
         rels = {"orders": [("customers", "many_to_one", "customer_id"), ("stores", "many_to_one", "store_id")], "items": [("orders", "many_to_one", "order_id")],
-                "customers": [("regions", "many_to_one", "region_id")], "returns": [("orders", "many_to_one", "order_id")], "regions": [], "stores": []}
+                "customers": [("regions", "many_to_one", "region_id")], "returns": [("orders", "many_to_one", "order_id")], "regions": [], "stores": [("regions", "many_to_one", "region_id")]}      # orders -> customers -> regions and orders -> stores -> regions: two equally short paths
         for n in names:
             mets = [Metric(name="n", agg="count"), Metric(name="total", agg="sum", sql="amount"), Metric(name="avg_amt", agg="avg", sql="amount"),
                     Metric(name="big", agg="sum", sql="amount", filters=["{model}.amount > 10", "{model}.kind = 'x'"]),
@@ -46,6 +46,9 @@ def battery():
         dict(metrics=["running", "orders.n"], dimensions=["orders.day__month"]),
         dict(metrics=["ab_ba"], dimensions=["orders.day__week", "customers.kind"]),
         dict(metrics=["returns.total", "returns.mix"], dimensions=["stores.kind", "customers.status", "orders.status"], order_by=["stores.kind"], limit=5),
+        dict(metrics=["orders.total"], dimensions=["regions.kind"]),                                         # the diamond, walked from orders
+        dict(metrics=["regions.n"], dimensions=["regions.kind"], filters=["orders.status = 'a'"]),          # ... and from regions
+        dict(metrics=["items.total"], dimensions=["regions.status", "stores.kind"]),
     ]
     return layer, queries
 
